@@ -88,9 +88,9 @@ func VerifHarness_C06_Pattern_2() { verifC06Pattern(2) }
 func verifC06JSON(valLen int) {
 	v := verifLower("v", valLen)
 	// integers beyond 2^53 must come out digit for digit (ids, nanosecond timestamps)
-	nums := []string{"5", "2.5", "-3", "9007199254740993", "9223372036854775807", "-9007199254740993"}
+	nums := []string{"5", "2.5", "-3", "9007199254740993", "9223372036854775807", "-9007199254740993", "12345678901234567890"}
 	num := nums[vsymChoice("num", len(nums))]
-	doc := `{"k1":"` + v + `","k2":` + num + `,"k.3":true,"o":{"in":"x"},"n":null}`
+	doc := `{"k1":"` + v + `","k2":` + num + `,"k.3":true,"k-4":"z","o":{"in":"x"},"n":null}`
 	cut := len(doc)
 	if vsymBool("truncated") {
 		cut = vsymChoice("cut", len(doc))
@@ -116,6 +116,10 @@ func verifC06JSON(valLen int) {
 		vsymReach("C06_json")
 		return
 	}
+	if !verifNoErr(set) && num == "12345678901234567890" && mode != 2 {
+		vsymFinding("F42", true, "a JSON integer beyond the int64 range (an unsigned 64-bit id) makes `| json` flag the whole well-formed line with __error__ and stop extracting: the fields after it are not exposed, so a later label filter drops the record depending on the key order of the line")
+		return
+	}
 	vsymAssert(verifNoErr(set), "a well-formed object raises no error")
 	get := func(n string) (string, bool) { return verifGet(set, n) }
 	switch mode {
@@ -126,6 +130,8 @@ func verifC06JSON(valLen int) {
 		vsymAssert(ok && g == num, "all fields: number field exposed with its value")
 		g, ok = get("k_3")
 		vsymAssert(ok && g == "true", "all fields: key sanitised to a valid label name")
+		g, ok = get("k_4")
+		vsymAssert(ok && g == "z", "all fields: every sanitised key keeps its own name and value")
 		_, ok = get("n")
 		vsymAssert(!ok, "null fields are not exposed")
 	case 1:
@@ -257,6 +263,18 @@ func VerifHarness_C06_RegexpAndError() {
 	} else {
 		vsymAssert(!okm && !okn && len(set.labels) == 0, "no match: nothing is set")
 	}
+	// a named group that takes no part in the match is exposed empty, not a crash
+	re2 := regexp.MustCompile(`(?P<method>GET|POST)?\s*(?P<path>/\S*)`)
+	proc2, err := buildRegexpExtractor(&logql.RegexpLabelParser{Regexp: re2, Mapping: map[int]logql.Label{1: "method", 2: "path"}})
+	vsymAssert(err == nil, "regexp stage with an optional group builds")
+	opt := []struct{ line, method, path string }{{"/healthz", "", "/healthz"}, {"GET /x", "GET", "/x"}, {"POST/", "POST", "/"}}
+	oc := opt[vsymChoice("optline", len(opt))]
+	set3 := newLabelSet()
+	out3, keep3 := proc2.Process(1, oc.line, set3)
+	vsymAssert(keep3 && out3 == oc.line, "regexp never drops or changes the line")
+	gm, okgm := verifGet(set3, "method")
+	gp, okgp := verifGet(set3, "path")
+	vsymAssert(okgm && gm == oc.method && okgp && gp == oc.path, "an optional named group that did not take part in the match is exposed with the empty value")
 	// first error wins
 	set2 := newLabelSet()
 	set2.SetError("first", errVerifFake)
